@@ -14,6 +14,9 @@
 (*          one SingleDetect call; ref = verdict of the same bytes under   *)
 (*          full-buffer reads without faults (C09/C10 only; C11 judges the *)
 (*          verdict itself against the poker definition).                  *)
+(*   begin.mustreject: the stream is stuck-at / short-cycle (C14);          *)
+(*   begin.decide = FALSE: no result matrix was recorded (10^6-bit real     *)
+(*   runs), only termination, error/verdict consistency and rejection.      *)
 (* `cnt`/`hist` are the planned per-item pass counts and Q histograms over *)
 (* the s samples of the stream; the stubs return the planned result of the *)
 (* sample they recognise in the buffer (sample = -1: stale / zero /        *)
@@ -34,13 +37,14 @@ HistSeq(qs) == LET h == Hist(qs) IN [b \in 1..10 |-> h[b - 1]]
 Begin(e) ==
   /\ e.s \in 1..1000 /\ e.items \in 1..15 /\ e.sb \in 1..10000000
   /\ Len(e.cnt) = e.items
-  /\ IF e.real
+  /\ IF ~e.decide THEN TRUE
+     ELSE IF e.real
        THEN /\ Len(e.qs) = e.items
             /\ \A i \in 1..e.items : Len(e.qs[i]) = e.s /\ \A k \in 1..e.s : RIsNum(e.qs[i][k])
        ELSE Len(e.hist) = e.items
   /\ st' = [phase |-> "run", fn |-> e.fn, s |-> e.s, sb |-> e.sb, items |-> e.items, fast |-> e.fast,
-            cnt |-> e.cnt, hist |-> IF e.real THEN [i \in 1..e.items |-> HistSeq(e.qs[i])] ELSE e.hist,
-            fault |-> e.fault, real |-> e.real, seen |-> {}, nxt |-> 0]
+            cnt |-> e.cnt, hist |-> IF ~e.decide THEN <<>> ELSE IF e.real THEN [i \in 1..e.items |-> HistSeq(e.qs[i])] ELSE e.hist,
+            fault |-> e.fault, real |-> e.real, mustreject |-> e.mustreject, decide |-> e.decide, seen |-> {}, nxt |-> 0]
 
 \* a buffer handed to the round function: a fresh, complete, consecutive sample, judged once,
 \* by exactly the first `items` registry runners in order; in stream order for sequential workflows
@@ -58,7 +62,9 @@ Ret(e) ==
   /\ e.hang = FALSE /\ e.panic = FALSE          \* returns within bounded time, never crashes
   /\ e.leak <= 0                                \* no goroutine left behind
   /\ e.maxreq <= st.s * st.sb                   \* bytes beyond the s samples are never requested
-  /\ IF st.fault
+  /\ (st.mustreject => e.verdict = FALSE /\ e.haserr = TRUE)   \* C14: degenerate sources are always rejected
+  /\ IF ~st.decide THEN e.haserr = ~e.verdict
+     ELSE IF st.fault
        THEN /\ e.verdict = FALSE /\ e.haserr = TRUE
             /\ st.seen \subseteq 0..(st.s - 1)
        ELSE LET cnt == [i \in 1..st.items |-> st.cnt[i]]
